@@ -156,10 +156,13 @@ def check_rk_step(ex, reg, src, name, m, sd_keys=()):
     if not normal:
         reg.undecided(pre + "paths", "unsupported", "step", "no normal path")
         return
+    flags0 = {f: st.obj(selfobj).fields.get(f) for f in ("_explicit", "_fsal", "_adaptive", "_adaptivity_enabled", "tableau_intermediate", "tableau_final", "atol", "rtol")}
     for k, (s, v) in enumerate(normal):
         ts, (dTime, dState) = v
         o = s.obj(selfobj)
         suffix = "" if len(normal) == 1 else "#path%d" % k
+        reg.ground(pre + "frame-flags-tables-and-tolerances-untouched" + suffix, "frame", "step", all(o.fields.get(f) is flags0[f] or o.fields.get(f) == flags0[f] for f in flags0), backend="symbolic-exec",
+                   detail="step() leaves _explicit, _fsal, _adaptive, _adaptivity_enabled, the tables and atol / rtol as they were (the retry logic of __call__ relies on it)")
         if not implicit:
             ks, spec = rk_spec(T, b, t, y, h, True)
             reg.ground(pre + "dState-formula" + suffix, "post", "step", dState == spec and o.fields["dState"] == spec, backend="lincomb-exact",
@@ -327,7 +330,7 @@ def run(tier):
     R = common.Run(PID, "proof", tier)
     R.assume("A1", "A2", "A3", "A5", "A6")
     R.assume("array-valued data live in the free vector space over uninterpreted applications rhs(t, y) (LinComb domain): equality is decided exactly by polynomial identity of coefficients; array shapes/dtypes are not modelled")
-    R.assume("nonlinear_roots is external to this property (assumed contract: returns (root, (success, iterations, nfev, njev, prec)); whether success means a small residual is C15 / bounded native clause)")
+    R.assume("the solvers behind nonlinear_roots are external to this property (whether their success means a small residual is C15); what step() relies on -- the reported precision is the residual norm at the returned point, on every branch of the real front end -- is proved in this run")
     R.trust("pyvc executor (A2) and its LinComb/ConcVec/TabVal domains", "tables dumped from the imported classes", "exact Fraction/polynomial arithmetic")
     reg = solver.Registry()
     R.add_registry(reg)
@@ -355,11 +358,24 @@ def run(tier):
             else:
                 ex = make_executor(src, reg)
                 check_splitting(ex, reg, src, name, m)
+        from . import intcall
         for implicit, adaptive in ((True, False), (True, True), (False, True), (False, False)):
             ex = make_executor(src, reg)
             check_call_skeleton(ex, reg, src, implicit, adaptive)
+            # ... and for every retry budget (retry loop cut by an invariant, props/intcall.py)
+            intcall.check_rk_call_unbounded(reg, src, PID, implicit, adaptive)
     except Unsupported as e:
         reg.undecided(PID + "/executor/unsupported", "unsupported", "executor", str(e))
+    # ---- the consumer side of the nonlinear solve: step() accepts iff `success and prec < desired_tol`; that `prec` is the residual norm at the
+    #      returned point on every branch of the real nonlinear_roots front end (its solvers by the contracts proved in C15) is proved here too
+    try:
+        from . import C15
+        R.under_contract(C15.check_front_end(reg, src))
+        for o in reg.obligations:
+            if o.name.startswith("C15/"):
+                o.name = o.name.replace("C15/", PID + "/", 1)
+    except Unsupported as e:
+        reg.undecided(PID + "/nonlinear_roots/unsupported", "unsupported", "executor", str(e))
     # ---- bounded native clause: stage residual of the implicit solve
     try:
         nat = common.run_native("monitor/native_c02.py", dict(tier=tier, seed=R.seed), timeout=1200)
